@@ -1,0 +1,69 @@
+//go:build verif
+
+package tensor
+
+// C10 / C13 / C16 / C20: shape calculators, order flags and index helpers (comment-only).
+
+// ---- concatenation / repetition shapes ----
+
+//@ func tensor.Shape.Concat
+//@   props C10 C13
+//@   mode rank s
+//@   config fixlen ss=2
+//@   config prune solver
+//@   let n = len(s)
+//@   let ax = axis == AllAxes ? 0 : axis
+//@   requires [sep] ss[0].arr != s.arr && ss[1].arr != s.arr
+//@   ensures [dim_mismatch] (len(ss[0]) != n || len(ss[1]) != n) ==> err != nil
+//@   ensures [bad_axis] len(ss[0]) == n && len(ss[1]) == n && (ax < 0 || ax >= n) ==> err != nil
+//@   ensures [misfit] len(ss[0]) == n && len(ss[1]) == n && 0 <= ax && ax < n && (exists d :: 0 <= d && d < n && d != ax && (ss[0][d] != s[d] || ss[1][d] != s[d])) ==> err != nil
+//@   ensures [shape] err == nil ==> len(newShape) == n && 0 <= ax && ax < n && (forall d :: 0 <= d && d < n ==> newShape[d] == (d == ax ? s[d] + ss[0][d] + ss[1][d] : s[d]))
+//@   ensures [accepts] len(ss[0]) == n && len(ss[1]) == n && 0 <= ax && ax < n && (forall d :: 0 <= d && d < n && d != ax ==> ss[0][d] == s[d] && ss[1][d] == s[d]) ==> err == nil
+//@   ensures [operands] unchanged(s) && unchanged(ss[0]) && unchanged(ss[1])
+//@   ensures [fresh] err == nil ==> fresh(newShape)
+//@   assigns nothing
+
+// ---- data order flags (bit-vector reasoning) ----
+
+//@ func tensor.DataOrder.HasSameOrder
+//@   props C16
+//@   ensures [value] result == ((f & ColMajor) == (other & ColMajor))
+//@   assigns nothing
+
+//@ func tensor.AP.setDataOrder
+//@   props C16
+//@   ensures [order] (ap.o & ColMajor) == (o & ColMajor)
+//@   ensures [other_bits] (ap.o & NonContiguous) == (old(ap.o) & NonContiguous) && (ap.o & Transposed) == (old(ap.o) & Transposed)
+//@   assigns ap.o
+
+//@ func tensor.AP.calcStrides
+//@   props C01 C16
+//@   requires [dims] forall i :: 0 <= i && i < len(ap.shape) ==> ap.shape[i] >= 0
+//@   ensures [row_major] (ap.o & ColMajor) == DataOrder(0) && len(ap.shape) > 0 ==> len(result) == len(ap.shape) && (forall i :: 0 <= i && i < len(ap.shape) ==> result[i] == sufprod(ap.shape, i+1))
+//@   ensures [col_major] (ap.o & ColMajor) != DataOrder(0) && !allOnes(ap.shape) && !isVec(ap.shape) ==> len(result) == len(ap.shape) && (forall i :: 0 <= i && i < len(ap.shape) ==> result[i] == preprod(ap.shape, i))
+//@   assigns nothing
+
+// ---- index helpers (C03, C20: the assembly divmod is trusted with the contract proved for the pure-Go one) ----
+
+//@ func tensor.divmod
+//@   props C20
+//@   requires [nonzero] b != 0
+//@   ensures [value] q == a / b && r == a % b
+//@   ensures [euclid] a == q*b + r
+//@   ensures [rem_range] a >= 0 && b > 0 ==> 0 <= r && r < b && q >= 0
+//@   assigns nothing
+
+//@ func tensor.Itol
+//@   props C03 C20
+//@   mode rank strides
+//@   let n = len(strides)
+//@   requires [strides] forall d :: 0 <= d && d < len(strides) ==> strides[d] > 0
+//@   requires [shape] len(shape) >= len(strides)
+//@   ensures [len] len(coords) == n
+//@   ensures [inverse] i >= 0 && n > 0 && strides[n-1] == 1 ==> i == dot(strides, coords, n)
+//@   ensures [below] i >= 0 ==> dot(strides, coords, n) <= i
+//@   ensures [nonneg] i >= 0 ==> (forall d :: 0 <= d && d < n ==> coords[d] >= 0)
+//@   ensures [digit_bound] i >= 0 ==> (forall d :: 1 <= d && d < n ==> coords[d]*strides[d] < strides[d-1])
+//@   ensures [oob] i >= 0 && (exists d :: 0 <= d && d < n && coords[d] >= shape[d]) ==> err != nil
+//@   ensures [operands] unchanged(shape) && unchanged(strides)
+//@   assigns nothing
